@@ -126,6 +126,11 @@ func (ir *IntrospectionResolver) resolveType(schema *ast.Schema, typ *ast.Type, 
 		case "name":
 			result[f.Alias] = namedType.Name
 		case "fields":
+			// only objects and interfaces have fields; the specification prescribes null otherwise
+			if namedType.Kind != ast.Object && namedType.Kind != ast.Interface {
+				result[f.Alias] = nil
+				continue
+			}
 			includeDeprecated := false
 			if deprecatedArg := f.Arguments.ForName("includeDeprecated"); deprecatedArg != nil {
 				v, err := deprecatedArg.Value.Value(ir.Variables)
@@ -174,6 +179,10 @@ func (ir *IntrospectionResolver) resolveType(schema *ast.Schema, typ *ast.Type, 
 				result[f.Alias] = nil
 			}
 		case "enumValues":
+			if namedType.Kind != ast.Enum {
+				result[f.Alias] = nil
+				continue
+			}
 			includeDeprecated := false
 			if deprecatedArg := f.Arguments.ForName("includeDeprecated"); deprecatedArg != nil {
 				v, err := deprecatedArg.Value.Value(ir.Variables)
@@ -193,6 +202,10 @@ func (ir *IntrospectionResolver) resolveType(schema *ast.Schema, typ *ast.Type, 
 			}
 			result[f.Alias] = enums
 		case "inputFields":
+			if namedType.Kind != ast.InputObject {
+				result[f.Alias] = nil
+				continue
+			}
 			inputFields := []map[string]interface{}{}
 			for _, fi := range namedType.Fields {
 				// call resolveField instead of resolveInputValue because it has
